@@ -29,6 +29,11 @@ QSeqs == {<<1, 1>>, <<1, 1, 1>>}
 
 V(pos, here, v, dflt) == IF pos = here THEN v ELSE dflt
 
+RECURSIVE PtrN(_, _)
+PtrN(n, t) == IF n = 0 THEN t ELSE TMPtr(PtrN(n - 1, t))
+RECURSIVE ArrN(_, _)
+ArrN(n, t) == IF n = 0 THEN t ELSE TArr(ArrN(n - 1, t), 1)
+
 MkInput(ptr, pos, v, tname, fname) ==
   LET T == [TypeDef(tname, "pub",
               <<Field(fname, "pub", <<>>, TNm("u32"), V(pos, "field_addr", v, None), FALSE),
@@ -79,6 +84,17 @@ Init ==
                       EXCEPT !.impls = <<Impl("B", <<Func("r#type", "pub", <<>>, <<ArgC>>, TNone, 327680, None, "")>>),
                                          Impl("C", <<Func("r#type", "pub", <<>>, <<ArgC>>, TNone, 393216, None, "")>>)>>]>>]
      /\ tag = <<"shape", "raw-ident-rename">>
+  (* the same base twice, reached through fields with raw-identifier names: the backend builds marker names from the field paths *)
+  \/ /\ input = [ptr |-> 8, mods |-> <<Module(<<"m">>, <<>>,
+                      <<TypeDef("B", "pub", <<Field("x", "pub", <<>>, TNm("u64"), None, FALSE)>>),
+                        TypeDef("r#struct", "pub", <<Field("r#type", "pub", <<>>, TNm("B"), None, TRUE), Field("r#fn", "pub", <<>>, TNm("B"), None, TRUE)>>),
+                        TypeDef("DD", "pub", <<Field("r#in", "pub", <<>>, TNm("r#struct"), None, TRUE), Field("other", "pub", <<>>, TNm("B"), None, TRUE)>>)>>)>>]
+     /\ tag = <<"shape", "raw-ident-conflict">>
+  (* types nested deeply: pointer to pointer to ..., array of array of ... *)
+  \/ \E n \in {16, 48, 100} : \E kind \in {"ptr", "arr"} :
+        /\ input = [ptr |-> 8, mods |-> <<Module(<<"m">>, <<>>,
+                      <<TypeDef("Deep", "pub", <<Field("p", "pub", <<>>, IF kind = "ptr" THEN PtrN(n, TNm("u8")) ELSE ArrN(n, TNm("u64")), None, FALSE)>>)>>)>>]
+        /\ tag = <<"shape", "deep-" \o kind \o "-" \o ToString(n)>>
   (* attributes with an empty or an over-long argument list, on every kind of item that takes attributes *)
   \/ \E x \in {"calling_convention()", "address()", "index()", "size()", "align()", "singleton()", "base()", "doc()",
                  "address(1, 2)", "size(8, 8)", "calling_convention(\"cdecl\", \"cdecl\")", "index(\"0\")", "address(\"x\")"} :
